@@ -684,8 +684,25 @@ func TestVerifC19Cmd(t *testing.T) {
 			}
 		}
 	}
+	// free-form fields: the project's name, its version, the ignore patterns (a sequence: order and repetitions count) and
+	// the requirement names are text the commands must carry over verbatim.  Text of the domains of the RESTRICTED fields
+	// (versions valid but not canonical, near-versions, unclean paths) and of plausible normalisers (padding, case,
+	// equivalent Unicode spellings, text that reads as another TOML type, key words, references) in all of them,
+	// x tidy / get -u / get of one module, canonical and hand-written layouts.  (The whole domains are enumerated in
+	// the internal/project harness, c19crossStrings; this is their cross-section at the level of the commands.)
+	free := []string{"v1.2.3+build.7", "v2", "v1.4", "v3.1.0+vendor.2", "v1.2.3-rc.1+exp.sha.5114f85", "1.2.3", "V1.0.0", "v01.2.3", "a//b", "./a", "a/", "a/../b", "a@v1", "**/testdata/", " x ", "x\n", "\tx",
+		"Dawn", "e\u0301", "\u212b", "\ufb01", "true", "1.0", "007", "1979-05-27", "requirements", "a.b.c", "$HOME", "https://github.com/a/b.git", "github.com/A/B"}
+	for i, s := range free {
+		c := &project.Config{Name: s, Version: s, Ignore: []string{s, "b", "a", s, ""}, Requirements: map[string]project.RequirementConfig{s: req(A, "v1.1.0"), "beta": req(B, "v1.0.0")}}
+		for j, k := range []cl{{cmd: "tidy"}, {cmd: "get", update: true}, {cmd: "get", args: []string{A + "@v1.2.0"}}} {
+			if j == i%3 { // two of the three command lines per string
+				continue
+			}
+			do(scen{kind: "free-form-fields", cmd: k.cmd, update: k.update, args: k.args, style: []int{-1, i % 3}[(i+j)%2], cfg: c, lacks: -1})
+		}
+	}
 	// random projects x random command lines
-	strs := []string{"", "dawn", "a b", "a.b", "it's", "say \"hi\"", "\\", "'''", "tab\there", "line\nbreak", "\x00", "\x7f", "é", "日本語", "\U0001F600", "#", "[x]", "a=b", " lead", "%d"}
+	strs := []string{"v1.2.3+build", "v2", "a//b/", " x ", "e\u0301", "1.0", "", "dawn", "a b", "a.b", "it's", "say \"hi\"", "\\", "'''", "tab\there", "line\nbreak", "\x00", "\x7f", "é", "日本語", "\U0001F600", "#", "[x]", "a=b", " lead", "%d"}
 	oddNames := []string{"", "a b", "x.y", "it's", "é", "say \"hi\"", "\U0001F600", "dep-1", "a\tb"}
 	for i := 0; i < nrand; i++ {
 		c := &project.Config{Name: strs[rng.Intn(len(strs))], Version: strs[rng.Intn(len(strs))], Requirements: map[string]project.RequirementConfig{}}
